@@ -5,6 +5,10 @@ package main
 // the wrapper's own walkers are also modelled in Lean (Mxj.Model.Wrapper).
 
 import (
+	"regexp"
+	"path/filepath"
+	"os"
+	"encoding/json"
 	"bytes"
 	"fmt"
 	"sort"
@@ -254,6 +258,95 @@ func c20Exec(op string) string {
 			}
 			chk("x2jw.ValuesAtKeyPath", mval(va) == mval(parent))
 		}
+	}
+	// ---- entry points that are plain compositions (one call each, compared with the composition)
+	{
+		var w bytes.Buffer
+		e1 := j2x.JsonReaderToXmlWriter(bytes.NewReader(jtxt), &w)
+		mj2, ej := mxj.NewMapJsonReader(bytes.NewReader(jtxt))
+		var want []byte
+		var ew error = ej
+		if ej == nil {
+			want, ew = mj2.Xml()
+		}
+		chk("j2x.JsonReaderToXmlWriter", errEq(e1, ew) && (ew != nil || bytes.Equal(w.Bytes(), want)))
+		w.Reset()
+		xr, jr, e2 := x2j.XmlReaderToJsonWriter(bytes.NewReader(doc), &w, safe)
+		mx2, xraw2, ex := mxj.NewMapXmlReaderRaw(bytes.NewReader(doc))
+		if ex == nil {
+			jw, ejw := mx2.Json(safe)
+			chk("x2j.XmlReaderToJsonWriter", errEq(e2, ejw) && (ejw != nil || (bytes.Equal(jr, jw) && bytes.Equal(w.Bytes(), jw) && bytes.Equal(xr, xraw2))))
+		} else {
+			chk("x2j.XmlReaderToJsonWriter", e2 != nil)
+		}
+		mc2, ec := mxj.NewMapXmlReader(bytes.NewReader(doc), cast)
+		ti, eti := x2jw.ToJsonIndent(bytes.NewReader(doc), cast)
+		if ec == nil {
+			ref, _ := json.MarshalIndent(map[string]interface{}(mc2), "", "  ")
+			chk("x2jw.ToJsonIndent", eti == nil && ti == string(ref))
+		} else {
+			chk("x2jw.ToJsonIndent", eti != nil)
+		}
+		bm, ebm := x2jw.XmlBufferToMap(bytes.NewBuffer(append([]byte{}, doc...)), cast)
+		chk("x2jw.XmlBufferToMap", errEq(ebm, ec) && (ec != nil || enc(bm) == enc(map[string]interface{}(mc2))))
+		bj, ebj := x2jw.XmlBufferToJson(bytes.NewBuffer(append([]byte{}, doc...)), cast)
+		if ec == nil {
+			ref, eref := mc2.Json()
+			chk("x2jw.XmlBufferToJson", errEq(ebj, eref) && (eref != nil || bj == string(ref)))
+		}
+		// the message loops: two copies of the document, one handler call each, in order
+		two := append(append(append([]byte{}, doc...), '\n'), doc...)
+		var seen []string
+		eh := func(error) bool { return false }
+		em := x2jw.XmlMsgsFromReader(bytes.NewReader(two), func(m map[string]interface{}) bool { seen = append(seen, enc(m)); return true }, eh, cast)
+		if ec == nil {
+			one := enc(map[string]interface{}(mc2))
+			chk("x2jw.XmlMsgsFromReader", em == nil && len(seen) == 2 && seen[0] == one && seen[1] == one)
+			var seenJ []string
+			emj := x2jw.XmlMsgsFromReaderAsJson(bytes.NewReader(two), func(s string) bool { seenJ = append(seenJ, s); return len(seenJ) < 1 }, eh, cast)
+			ref, _ := json.Marshal(map[string]interface{}(mc2))
+			chk("x2jw.XmlMsgsFromReaderAsJson", emj == nil && len(seenJ) == 1 && seenJ[0] == string(ref))
+			// the file forms first delete the white space in front of every '<' (a documented
+			// work-around of the legacy package), then run the same loop over the buffer
+			f := filepath.Join(scratch(), "c20msgs")
+			squeezed := regexp.MustCompile("[ \t\n\r]*<").ReplaceAll(doc, []byte("<"))
+			if ms, es := mxj.NewMapXmlReader(bytes.NewReader(squeezed), cast); es == nil && os.WriteFile(f, two, 0o644) == nil {
+				oneS := enc(map[string]interface{}(ms))
+				seen = nil
+				emf := x2jw.XmlMsgsFromFile(f, func(m map[string]interface{}) bool { seen = append(seen, enc(m)); return true }, eh, cast)
+				chk("x2jw.XmlMsgsFromFile", emf == nil && len(seen) == 2 && seen[0] == oneS && seen[1] == oneS)
+				if refS, eS := ms.Json(); eS == nil {
+					seenJ = nil
+					emfj := x2jw.XmlMsgsFromFileAsJson(f, func(s string) bool { seenJ = append(seenJ, s); return true }, eh, cast)
+					chk("x2jw.XmlMsgsFromFileAsJson", emfj == nil && len(seenJ) == 2 && seenJ[0] == string(refS) && seenJ[1] == string(refS))
+				}
+				os.Remove(f)
+			}
+		}
+	}
+	if exm == nil {
+		m := map[string]interface{}(mx)
+		vt, evt := x2jw.ValuesForTag(string(doc), key)
+		chk("x2jw.ValuesForTag", evt == nil && mval(vt) == mval(x2jw.ValuesForKey(m, key)))
+		vrt, evrt := x2jw.ReaderValuesForTag(bytes.NewReader(doc), key)
+		chk("x2jw.ReaderValuesForTag", evrt == nil && mval(vrt) == mval(x2jw.ValuesForKey(m, key)))
+		if !strings.HasSuffix(path, ".") && !strings.Contains(path, "[") {
+			va1, _ := x2jw.ValuesAtTagPath(string(doc), path, true)
+			chk("x2jw.ValuesAtTagPath", mval(va1) == mval(x2jw.ValuesAtKeyPath(m, path, true)))
+		}
+		// DocValue / MapValue without attributes: the value found by walking nested maps
+		segs := strings.Split(path, ".")
+		if holder, ok := mapDescent(m, segs); ok && segsSafe(segs) {
+			want, present := holder[segs[len(segs)-1]]
+			dv, edv := x2jw.DocValue(string(doc), path)
+			chk("x2jw.DocValue", (edv == nil) == present && (!present || enc(dv) == enc(want)))
+			mv2, emv := x2jw.MapValue(m, path, nil)
+			chk("x2jw.MapValue", (emv == nil) == present && (!present || enc(mv2) == enc(want)))
+		}
+		am, eam := x2jw.NewAttributeMap("id:1", "lang:en")
+		chk("x2jw.NewAttributeMap", eam == nil && enc(am) == enc(map[string]interface{}{"-id": "1", "-lang": "en"}))
+		_, eam2 := x2jw.NewAttributeMap("id")
+		chk("x2jw.NewAttributeMap(bad)", eam2 != nil)
 	}
 	sort.Strings(bad)
 	return "ok | " + strings.Join(bad, ",")
